@@ -66,6 +66,14 @@ def cases(rng, tier):
         c = ragidx.colsel_random(m, rng) if rng.random() < 0.65 else None
         add(lens, {"r": r, "c": c})
     _long_row_cases(rng, add, 150 if tier == "quick" else 1500)
+    # SCALE: more than 100,000 rows (selections of more rows than any internal chunk size); implementation vs reference only
+    for _ in range(3 if tier == "quick" else 12):
+        n = rng.randint(100001, 130000)
+        lens = [rng.choice([0, 1, 1, 2]) for _ in range(n)]
+        r = rng.choice([{"t": "slice", "a": 1, "b": None, "k": None}, {"t": "slice", "a": None, "b": None, "k": -1}, {"t": "slice", "a": None, "b": -1, "k": 2},
+                        {"t": "mask", "bs": [rng.random() < 0.9 for _ in range(n)]}])
+        c = rng.choice([None, None, {"t": "slice", "a": None, "b": None, "k": -1}, {"t": "slice", "a": 1, "b": None, "k": None}])
+        out.append({"lens": lens, "idx": {"r": r, "c": c}, "dtype": rng.choice(["int64", "int8"]), "vseed": rng.randint(0, 999), "variant": 0, "big": True})
     return out
 
 
@@ -84,6 +92,8 @@ def _long_row_cases(rng, add, n_cases):
 
 
 def key(p):
+    if p.get("big"):
+        return engine.stable_hash([len(p["lens"]), p["lens"][:20], p["idx"]["r"]["t"], p["idx"]["c"]])
     return engine.stable_hash([p["lens"], p["idx"]])
 
 
@@ -103,7 +113,7 @@ def _build(p):
     vals = _vals(p)
     # two cases in nine index an array that is itself a RESULT (a selection of all rows, a ufunc, a conversion, ...): a derived array
     # must behave like a freshly built one
-    how = gens.DERIVATIONS[(p.get("vseed", 0) + p.get("variant", 0)) % len(gens.DERIVATIONS)]
+    how = gens.DERIVATIONS[(p.get("vseed", 0) + p.get("variant", 0)) % len(gens.DERIVATIONS)] if not p.get("big") else None
     return gens.derive_ra(RaggedArray(vals, list(p["lens"])), how), vals
 
 
@@ -136,6 +146,8 @@ def oracle(p):
 
 
 def lean_request(p):
+    if p.get("big"):
+        return None
     return {"op": "C02.getitem", "rows": gens.rows_of_ids(p["lens"]), "idx": p["idx"]}
 
 
